@@ -23,7 +23,7 @@ RULE = ('(a,b) texts = all alternations word,sep,word,... with <=k words over 13
         'distinct inputs on which the function changed something (output != input)')
 
 LONG = 'L' * 45
-WORDS = ['ab', 'x', 'c-d', LONG, '-', '+', '1.', '22.', 'end:', '"', '"""', 'b\\', 'q"']
+WORDS = ['ab', 'x', 'ab-cd', LONG, '-', '+', '1.', '22.', 'end:', '"', '"""', 'b\\', 'q"']
 SEPS = [' ', '  ', '\t', '\n', '\n ', '\n\n', ' \n']
 WORDS_SMALL = ['ab', LONG, '-', '1.', 'end:', 'b\\']
 SEPS_SMALL = [' ', '\n', '\n ', '\n\n', ' \n']
@@ -31,7 +31,7 @@ WRAP_PARAMS = [(w, i, o) for w in (8, 16, 40) for i in (0, 4) for o in (0, 3, w 
 RST_PARAMS = [(w, i, nl) for w in (16, 40, 72) for i in (0, 4) for nl in (None, True)]
 
 FEATURES = [('tab', '\t'), ('dq3', '"""'), ('backslash', '\\'), ('colon', ':'), ('list', None), ('long', LONG),
-            ('blank', '\n\n'), ('nlsp', '\n '), ('sp2', '  '), ('hyphen', 'c-d'), ('dq', '"')]
+            ('blank', '\n\n'), ('nlsp', '\n '), ('sp2', '  '), ('hyphen', 'ab-cd'), ('dq', '"')]
 
 
 def features(text):
@@ -316,18 +316,26 @@ def doc_job(offset=0, hazard=None):
     from .. import apis
     from ..ref import names as refnames
     texts = doc_texts()
-    f = apis.baseline_file()
+    # the baseline API plus a request/response pair declared in *another* file, and messages used before they are declared
+    a_ = edits.Api()
+    edits.EDITS['request_from_other_file'](a_)
+    edits.EDITS['nested_deep'](a_)
     comments, kinds, placed = {}, {}, {}
     i = 0
-    for kind, full, path in desc.element_paths(f):
-        if kind == 'enum_value' and full.endswith('_UNSPECIFIED'):
-            continue
-        comments[full] = texts[(i * 37 + offset * 131) % len(texts)] if hazard is None else hazard[1]
-        placed[full] = PLACES[(i + offset) % len(PLACES)]
-        kinds[full] = kind
-        i += 1
-    desc.add_comments(f, {k: (' ' + v + '\n', placed[k]) for k, v in comments.items()})
-    req = desc.request([f], 'transport=grpc+rest')
+    for f in a_.files:
+        per_file = {}
+        for kind, full, path in desc.element_paths(f):
+            if kind == 'enum_value' and full.endswith('_UNSPECIFIED'):
+                continue
+            i += 1
+            if kind == 'enum' and (i + offset) % 2:
+                continue        # an enum without a comment of its own whose values are commented
+            comments[full] = texts[(i * 37 + offset * 131) % len(texts)] if hazard is None else hazard[1]
+            placed[full] = PLACES[(i + offset) % len(PLACES)]
+            kinds[full] = kind
+            per_file[full] = (' ' + comments[full] + '\n', placed[full])
+        desc.add_comments(f, per_file)
+    req = a_.request('transport=grpc+rest')
     desc.gate(req)
     jid = f'docwords{offset}' if hazard is None else f'dochazard:{hazard[0]}/{offset}'
     return dict(id=jid, req=req.SerializeToString(), probe='mc.probes.docwords',
